@@ -84,6 +84,8 @@ EQ_BASES = {
     "r": (dict(p=2, q=1), dict(p=2, q=1, r=1)),
     "signature": (dict(signature=[1, -1]), dict(signature=[-1, 1])),
     "basis": (dict(p=3), dict(p=3, basis=["e", "e2", "e3", "e1", "e23", "e31", "e12", "e123"])),
+    # the same blade names listed with the generators in another order: e1 is the first generator of one basis and the second of the other
+    "basis (generator order)": (dict(p=2, basis=["e", "e1", "e2", "e12"]), dict(p=2, basis=["e", "e2", "e1", "e12"])),
     # start_index is deliberately not a pair here: tests/test_kingdon.py::test_start_index compares elements of two algebras
     # that differ in the start index only (`fi**2 == ei**2`), so upstream treats them as one algebra with two spellings.
 }
@@ -113,9 +115,8 @@ def _eq_by_interpretation(ctx, cls, eqdef):
             raise NoValue(f"__eq__ gives {out[1]!r}")
         return out[1]
 
-    for name in METRIC_INPUTS:
+    for name, (base, variant) in EQ_BASES.items():
         c = f"algebra.Algebra.{name}#compare"
-        base, variant = EQ_BASES[name]
         try:
             same = run_eq(base, dict(base))
             differ = run_eq(base, variant)
@@ -135,7 +136,7 @@ def _eq_by_interpretation(ctx, cls, eqdef):
             ctx.ok(c, eqdef, compared=True, by="__eq__ interpreted on stand-in algebras", reference=str(base), variant=str(variant))
 
 
-@rule("C14.eq-fields", props=["C14"], min_instances=5, mutants=[
+@rule("C14.eq-fields", props=["C14"], min_instances=6, mutants=[
     ("basis no longer compared", ("algebra", "    basis: List[str] = field(repr=False, default_factory=list)", "    basis: List[str] = field(repr=False, default_factory=list, compare=False)")),
     ("signature no longer compared", ("algebra", "\n                and np.array_equal(self.signature, other.signature))", ")")),
     ("equality compares the dimension only", ("algebra", "        return (all(getattr(self, f.name) == getattr(other, f.name) for f in fields(self) if f.compare)\n                and np.array_equal(self.signature, other.signature))", "        return self.d == other.d")),
